@@ -218,6 +218,13 @@ fn breadth(ctx: &Ctx, devs: Vec<Act>, thorough: bool) -> Vec<LifeCfg> {
     }
     v.push(cfg(ctx, Hid::S32, vec![hw(5, 4), hw(2, 4)], 0, None, 0, vec![]));
     v.push(cfg(ctx, Hid::S32, vec![hw(2, 4), hw(5, 4)], 0, None, 0, vec![]));
+    // a 1024-leaf tree: windows where the higher authentication-path levels change
+    for (s, ms) in [(0u64, Some(2u64)), (255, Some(2)), (511, Some(2)), (767, Some(2)), (1022, None)] {
+        v.push(cfg(ctx, Hid::S24, vec![hw(10, 4)], s, ms, 0, vec![]));
+    }
+    for (s, ms) in [(31u64, Some(2u64)), (4095, None)] {
+        v.push(cfg(ctx, Hid::S16, vec![hw(2, 4), hw(10, 8)], s * 0 + if s == 31 { 1023 } else { 4095 }, ms, 0, vec![]));
+    }
     if thorough {
         for h in ALL_HASHES {
             v.push(cfg(ctx, h, vec![hw(5, 4), hw(5, 2)], 0, None, 0, vec![]));
